@@ -117,10 +117,16 @@ def verify_not_refused(f):
 
 def codec_mismatch(f):
     """C15: decode verdict / re-encoding differs from the specification on the real crates"""
-    o = run_replay(f.detail.get('replay_cfg', f.cfg), 1)
+    cfg0 = f.detail.get('replay_cfg', f.cfg)
+    exp = f.detail.get('expect_decode')
+    o = run_replay(cfg0, 1)
     if 'crash' in o:
         return None, o
-    exp = f.detail.get('expect_decode')
+    if exp == 'err' and o.get('decode') != 'ok' and cfg0.get('scenario') == 'codec':
+        # a buffer the specification refuses whatever its contents: retry with contents that parse under any reading of the tag byte
+        o2 = run_replay(dict(cfg0, all_scalars=True), 1)
+        if 'crash' not in o2 and (o2.get('decode') == 'ok' or o2.get('serde_decode') == 'ok'):
+            o = o2
     got = 'ok' if o.get('decode') == 'ok' else ('panic' if o.get('decode') == 'panic' else 'err')
     if exp is not None and got != exp:
         return True, {'decode': o.get('decode'), 'expected': exp}
@@ -128,6 +134,8 @@ def codec_mismatch(f):
         return True, {k: o.get(k) for k in ('reencode_equal', 'serde_decode', 'serde_bytes_equal')}
     if got != 'ok' and o.get('serde_decode') == 'ok':
         return True, {'serde_decode': 'ok', 'decode': o.get('decode')}
+    if o.get('serde_reader_decode') is not None and o.get('serde_reader_decode') != o.get('serde_decode'):
+        return True, {'serde_decode (slice)': o.get('serde_decode'), 'serde_decode (reader)': o.get('serde_reader_decode')}
     return False, o
 
 
